@@ -752,7 +752,7 @@ def run(ck):
     g = Gen(rnd)
     thorough = ck.tier == "thorough"
     scale = 1 if not thorough else 50
-    per_api = 40 * scale
+    per_api = (30 if not thorough else 40 * scale)
 
     # ================= 1. well-formed responses of every API/version
     spec_cases, spec_impl = [], []            # grammar encoder: Python vs Coq
@@ -851,7 +851,7 @@ def run(ck):
     def fetch_with(records, ver):
         return (rnd.randint(0, 99), 0, [(b"topic", [(0, 0, 1000, rec) for rec in records])])
 
-    nsets = 60 * scale * (3 if ("msgset" in tie_down or "util" in tie_down) else 1)      # message-set tie (A) down: larger sample
+    nsets = (45 if not thorough else 60 * scale) * (3 if ("msgset" in tie_down or "util" in tie_down) else 1)      # message-set tie (A) down: larger sample
     tree_cases, tree_impl = [], []
     for i in range(nsets):
         depth = rnd.choice([0, 1, 1, 2, 2] + ([3] if thorough else []))
